@@ -13,6 +13,7 @@ The oracle is the reference dispatcher `Model` below, written from the property 
 matching is delegated to C01's reference walk (`RefRouter`), sink matching to ``re.match`` on the
 prefix text, static matching to a two-line prefix rule.
 """
+import atexit
 import concurrent.futures
 import json
 import os
@@ -366,13 +367,29 @@ def describe(case):
 # ------------------------------------------------------------------ suites
 
 
+# One scratch directory per run, created by the process that imports this module (the runner, before it forks
+# its workers) and removed when that process exits: workers that are terminated early (the first violation
+# stops the pool) never reach teardown().
+_RUN_DIR = tempfile.mkdtemp(prefix='vf-c02-run-', dir=os.environ.get('TMPDIR') or None)
+_RUN_OWNER = os.getpid()
+
+
+def _remove_run_dir():
+    if os.getpid() == _RUN_OWNER:
+        shutil.rmtree(_RUN_DIR, ignore_errors=True)
+
+
+atexit.register(_remove_run_dir)
+
+
 class _Base(Suite):
     dirs = None
     base = None
     executor = None
 
     def setup(self):
-        self.base = tempfile.mkdtemp(prefix='vf-c02-')
+        os.makedirs(_RUN_DIR, exist_ok=True)
+        self.base = tempfile.mkdtemp(prefix='w-', dir=_RUN_DIR)
         self.dirs = []
         for k in (0, 1):
             d = os.path.join(self.base, 'd%d' % k)
